@@ -23,8 +23,8 @@ def gen_timed_case(r):
         p = []
         for _ in range(r.randint(1, 3)):
             x = r.random()
-            if x < 0.55: p.append(('F', 1, r.random() < 0.8))
-            elif x < 0.7: p.append(('N', 1))
+            if x < 0.55: p.append(('F', r.choice([1, 1, 1, 2]), r.random() < 0.8))
+            elif x < 0.7: p.append(('N', r.choice([1, 1, 2])))     # 3-state use (Future: 0 -> 1 -> 2): a waiter for 2 must not take 1 for completion, nor vice versa
             elif x < 0.85: p.append(('W', 1))
             else: p.append(('P',))
         progs.append(p)
@@ -65,7 +65,7 @@ def run(ctx):
     for v, (c, p, o) in zip(verdicts, kept):
         hist[v] = hist.get(v, 0) + 1
         if v in (2, 4):
-            ctx.violation('lost wake-up in a timed-wait program: %s -> %s' % (C21.line_of(c)[:200], o[:300]), {'case': C21.line_of(c), 'output': o})
+            ctx.violation('lost wake-up, or a wait that reported completion on a word other than its target, in a timed-wait program: %s -> %s' % (C21.line_of(c)[:200], o[:300]), {'case': C21.line_of(c), 'output': o})
         elif v == 1:
             ctx.broken.append('correspondence L(C20): real trace differs from the model on ' + C21.line_of(c)[:160] + ' -> ' + o[:200])
     ctx.cov['lockstep'] = {'cases': len(cases), 'agree': hist.get(0, 0), 'with_injected_timeout': ntimeouts}
